@@ -399,7 +399,11 @@ def run_c02(tier):
 
     def steps():
         try:
-            box['steps'] = checks_emitted.run_reduce_steps('C02', tier, all_e1_names(), R)
+            # corpus/e1 plus curated grammars rendered with seeded random fieldset styles and `_` patterns
+            extra = [(n, p) for n, p in e2_corpus_files(tier, common.seed() + 101) if n.startswith('cur_')]
+            if tier == 'quick':
+                extra = random.Random(common.seed()).sample(extra, 12)
+            box['steps'] = checks_emitted.run_reduce_steps('C02', tier, all_e1_names() + extra, R)
         except Exception:
             import traceback
             box['err'] = traceback.format_exc()
